@@ -36,6 +36,11 @@ type C18Case struct {
 	// BLimit: node b accepts messages up to this size only (0 = no limit): publications marked Big are
 	// refused for b at the sender, everybody else still gets them
 	BLimit int `json:"b_limit,omitempty"`
+	// Pool (> 1): the connections between the nodes are pools of that many TCP links, Skew[i]
+	// multiplies the latency of the i-th link created: the frames of one producer must still
+	// travel over one link
+	Pool int   `json:"pool,omitempty"`
+	Skew []int `json:"skew,omitempty"`
 }
 
 type c18 struct{}
@@ -123,6 +128,12 @@ func (c18) Generate(r *simkit.Rand, tier string) any {
 			}
 		}
 	}
+	if remote && r.Bool() {
+		c.Pool = r.Range(2, 4)
+		for i := 0; i < 12; i++ {
+			c.Skew = append(c.Skew, simkit.Pick(r, 1, 1, 2, 10, 100))
+		}
+	}
 	for i, n := 0, r.Range(1, 4); i < n; i++ {
 		a := C18Actor{Role: "consumer", Link: r.Bool(), Remote: remote && r.Bool()}
 		a.Third = a.Remote && three && r.Bool()
@@ -161,6 +172,11 @@ func (c18) Shrink(cc any) []any {
 			n.Actors[i].Remote, n.Actors[i].Third = false, false
 			out = append(out, n)
 		}
+	}
+	if c.Pool > 1 {
+		n := cloneJSON(c)
+		n.Pool, n.Skew = 0, nil
+		out = append(out, n)
 	}
 	return out
 }
@@ -233,10 +249,14 @@ func (c18) Run(e *simkit.Env, cc any) {
 	if needRemote {
 		sn := simkit.NewSimNet(e)
 		sn.Segment = 1
-		a = simkit.StartNetNode(e, sn, simkit.NetNodeOptions{Name: "a@h1", Cookie: "k"})
-		b = simkit.StartNetNode(e, sn, simkit.NetNodeOptions{Name: "b@h2", Cookie: "k", MaxMessageSize: c.BLimit})
+		if c.Pool > 1 {
+			sn.Skew = c.Skew
+			e.Probe("pooled-links-with-skew")
+		}
+		a = simkit.StartNetNode(e, sn, simkit.NetNodeOptions{Name: "a@h1", Cookie: "k", PoolSize: c.Pool})
+		b = simkit.StartNetNode(e, sn, simkit.NetNodeOptions{Name: "b@h2", Cookie: "k", MaxMessageSize: c.BLimit, PoolSize: c.Pool})
 		if needThird {
-			cn = simkit.StartNetNode(e, sn, simkit.NetNodeOptions{Name: "c@h3", Cookie: "k"})
+			cn = simkit.StartNetNode(e, sn, simkit.NetNodeOptions{Name: "c@h3", Cookie: "k", PoolSize: c.Pool})
 			if cn == nil {
 				return
 			}
@@ -682,8 +702,15 @@ func (c18) Run(e *simkit.Env, cc any) {
 				for _, p := range okPubs {
 					f, ok := first[p.by]
 					if ok && p.num > f && p.ret < endInv && !sawNum[p.num] && !gotAtAll[p.num] && !excused(ai, p) {
-						e.Fail("C18/gap", "consumer %d (%s, remote=%v): subscription (steps %d-%d, buffer %v) saw publication %d of actor %d but neither its buffer nor its stream has the later publication %d (steps %d-%d) made before the subscription ended (%d)",
-							ai, map[bool]string{true: "link", false: "monitor"}[st.link], c.Actors[ai].Remote, s.inv, s.ret, s.buf, f, p.by, p.num, p.inv, p.ret, endInv)
+						tag := ""
+						if c.Actors[ai].Remote && p.inv < s.ret {
+							// the subscriber's node registers the subscriber locally only when the
+							// answer of the producer's node has arrived: a publication sent in
+							// between can reach that node first (known finding)
+							tag = " [published while the remote subscription call was in progress]"
+						}
+						e.Fail("C18/gap", "consumer %d (%s, remote=%v): subscription (steps %d-%d, buffer %v) saw publication %d of actor %d but neither its buffer nor its stream has the later publication %d (steps %d-%d) made before the subscription ended (%d)%s",
+							ai, map[bool]string{true: "link", false: "monitor"}[st.link], c.Actors[ai].Remote, s.inv, s.ret, s.buf, f, p.by, p.num, p.inv, p.ret, endInv, tag)
 						return
 					}
 				}
